@@ -685,6 +685,7 @@ class Ctx:
         self.model = None
         self.assumption_notes = []
         self._sqrt_cache = {}
+        self.unit_terms = {}  # id -> FP term known to lie in [0, 1] (draws of rand(), 1 - such a draw): used by a cut-point abstraction
         self.aux_decls = {}  # symbols introduced by the shim (tie-break keys, ...): part of every model
         self.preferences = []  # soft constraints used only when extracting a counterexample model
 
@@ -843,7 +844,9 @@ class Ctx:
             if op == "add":
                 e = z3.fpAdd(RNE, a.e, b.e)
             elif op == "sub":
-                e = z3.fpSub(RNE, a.e, b.e)
+                e = z3.simplify(z3.fpSub(RNE, a.e, b.e))
+                if b.e.get_id() in self.unit_terms and a._b is not None and z3.is_bv_value(a._b) and a._b.as_long() == float_bits(1.0):
+                    self.unit_terms[e.get_id()] = e  # 1 - u with u in [0,1] is again in [0,1]
             elif op == "mul":
                 if self.abstract_mul and not _is_const(a) and not _is_const(b):
                     # cut-point: symbolic x symbolic products are replaced by an unconstrained float64 (over-approximation)
